@@ -123,22 +123,42 @@ impl SlaveContext for Context {
     }
 }
 
+/// The response does not answer the request, although function codes do match.
+fn unexpected_response_data<T>(message: &'static str) -> Result<T> {
+    Err(io::Error::new(io::ErrorKind::InvalidData, message).into())
+}
+
+fn verify_response_data(matches: bool, message: &'static str) -> Result<()> {
+    if matches {
+        Ok(Ok(()))
+    } else {
+        unexpected_response_data(message)
+    }
+}
+
+fn take_response_coils(mut coils: Vec<Coil>, cnt: Quantity) -> Result<Vec<Coil>> {
+    if coils.len() < usize::from(cnt) {
+        return unexpected_response_data("response contains less items than requested");
+    }
+    coils.truncate(cnt.into());
+    Ok(Ok(coils))
+}
+
+fn take_response_words(words: Vec<Word>, cnt: Quantity) -> Result<Vec<Word>> {
+    if words.len() != usize::from(cnt) {
+        return unexpected_response_data("response does not contain the requested number of items");
+    }
+    Ok(Ok(words))
+}
+
 #[async_trait]
 impl Reader for Context {
     async fn read_coils<'a>(&'a mut self, addr: Address, cnt: Quantity) -> Result<Vec<Coil>> {
-        self.client
-            .call(Request::ReadCoils(addr, cnt))
-            .await
-            .map(|result| {
-                result.map(|response| match response {
-                    Response::ReadCoils(mut coils) => {
-                        debug_assert!(coils.len() >= cnt.into());
-                        coils.truncate(cnt.into());
-                        coils
-                    }
-                    _ => unreachable!("call() should reject mismatching responses"),
-                })
-            })
+        match self.client.call(Request::ReadCoils(addr, cnt)).await? {
+            Ok(Response::ReadCoils(coils)) => take_response_coils(coils, cnt),
+            Ok(_) => unreachable!("call() should reject mismatching responses"),
+            Err(exception) => Ok(Err(exception)),
+        }
     }
 
     async fn read_discrete_inputs<'a>(
@@ -146,19 +166,15 @@ impl Reader for Context {
         addr: Address,
         cnt: Quantity,
     ) -> Result<Vec<Coil>> {
-        self.client
+        match self
+            .client
             .call(Request::ReadDiscreteInputs(addr, cnt))
-            .await
-            .map(|result| {
-                result.map(|response| match response {
-                    Response::ReadDiscreteInputs(mut coils) => {
-                        debug_assert!(coils.len() >= cnt.into());
-                        coils.truncate(cnt.into());
-                        coils
-                    }
-                    _ => unreachable!("call() should reject mismatching responses"),
-                })
-            })
+            .await?
+        {
+            Ok(Response::ReadDiscreteInputs(coils)) => take_response_coils(coils, cnt),
+            Ok(_) => unreachable!("call() should reject mismatching responses"),
+            Err(exception) => Ok(Err(exception)),
+        }
     }
 
     async fn read_input_registers<'a>(
@@ -166,18 +182,15 @@ impl Reader for Context {
         addr: Address,
         cnt: Quantity,
     ) -> Result<Vec<Word>> {
-        self.client
+        match self
+            .client
             .call(Request::ReadInputRegisters(addr, cnt))
-            .await
-            .map(|result| {
-                result.map(|response| match response {
-                    Response::ReadInputRegisters(words) => {
-                        debug_assert_eq!(words.len(), cnt.into());
-                        words
-                    }
-                    _ => unreachable!("call() should reject mismatching responses"),
-                })
-            })
+            .await?
+        {
+            Ok(Response::ReadInputRegisters(words)) => take_response_words(words, cnt),
+            Ok(_) => unreachable!("call() should reject mismatching responses"),
+            Err(exception) => Ok(Err(exception)),
+        }
     }
 
     async fn read_holding_registers<'a>(
@@ -185,18 +198,15 @@ impl Reader for Context {
         addr: Address,
         cnt: Quantity,
     ) -> Result<Vec<Word>> {
-        self.client
+        match self
+            .client
             .call(Request::ReadHoldingRegisters(addr, cnt))
-            .await
-            .map(|result| {
-                result.map(|response| match response {
-                    Response::ReadHoldingRegisters(words) => {
-                        debug_assert_eq!(words.len(), cnt.into());
-                        words
-                    }
-                    _ => unreachable!("call() should reject mismatching responses"),
-                })
-            })
+            .await?
+        {
+            Ok(Response::ReadHoldingRegisters(words)) => take_response_words(words, cnt),
+            Ok(_) => unreachable!("call() should reject mismatching responses"),
+            Err(exception) => Ok(Err(exception)),
+        }
     }
 
     async fn read_write_multiple_registers<'a>(
@@ -206,72 +216,71 @@ impl Reader for Context {
         write_addr: Address,
         write_data: &[Word],
     ) -> Result<Vec<Word>> {
-        self.client
+        match self
+            .client
             .call(Request::ReadWriteMultipleRegisters(
                 read_addr,
                 read_count,
                 write_addr,
                 Cow::Borrowed(write_data),
             ))
-            .await
-            .map(|result| {
-                result.map(|response| match response {
-                    Response::ReadWriteMultipleRegisters(words) => {
-                        debug_assert_eq!(words.len(), read_count.into());
-                        words
-                    }
-                    _ => unreachable!("call() should reject mismatching responses"),
-                })
-            })
+            .await?
+        {
+            Ok(Response::ReadWriteMultipleRegisters(words)) => {
+                take_response_words(words, read_count)
+            }
+            Ok(_) => unreachable!("call() should reject mismatching responses"),
+            Err(exception) => Ok(Err(exception)),
+        }
     }
 }
 
 #[async_trait]
 impl Writer for Context {
     async fn write_single_coil<'a>(&'a mut self, addr: Address, coil: Coil) -> Result<()> {
-        self.client
+        match self
+            .client
             .call(Request::WriteSingleCoil(addr, coil))
-            .await
-            .map(|result| {
-                result.map(|response| match response {
-                    Response::WriteSingleCoil(rsp_addr, rsp_coil) => {
-                        debug_assert_eq!(addr, rsp_addr);
-                        debug_assert_eq!(coil, rsp_coil);
-                    }
-                    _ => unreachable!("call() should reject mismatching responses"),
-                })
-            })
+            .await?
+        {
+            Ok(Response::WriteSingleCoil(rsp_addr, rsp_coil)) => verify_response_data(
+                addr == rsp_addr && coil == rsp_coil,
+                "response does not echo the written coil",
+            ),
+            Ok(_) => unreachable!("call() should reject mismatching responses"),
+            Err(exception) => Ok(Err(exception)),
+        }
     }
 
     async fn write_multiple_coils<'a>(&'a mut self, addr: Address, coils: &[Coil]) -> Result<()> {
         let cnt = coils.len();
-        self.client
+        match self
+            .client
             .call(Request::WriteMultipleCoils(addr, Cow::Borrowed(coils)))
-            .await
-            .map(|result| {
-                result.map(|response| match response {
-                    Response::WriteMultipleCoils(rsp_addr, rsp_cnt) => {
-                        debug_assert_eq!(addr, rsp_addr);
-                        debug_assert_eq!(cnt, rsp_cnt.into());
-                    }
-                    _ => unreachable!("call() should reject mismatching responses"),
-                })
-            })
+            .await?
+        {
+            Ok(Response::WriteMultipleCoils(rsp_addr, rsp_cnt)) => verify_response_data(
+                addr == rsp_addr && cnt == usize::from(rsp_cnt),
+                "response does not echo the written coils",
+            ),
+            Ok(_) => unreachable!("call() should reject mismatching responses"),
+            Err(exception) => Ok(Err(exception)),
+        }
     }
 
     async fn write_single_register<'a>(&'a mut self, addr: Address, word: Word) -> Result<()> {
-        self.client
+        match self
+            .client
             .call(Request::WriteSingleRegister(addr, word))
-            .await
-            .map(|result| {
-                result.map(|response| match response {
-                    Response::WriteSingleRegister(rsp_addr, rsp_word) => {
-                        debug_assert_eq!(addr, rsp_addr);
-                        debug_assert_eq!(word, rsp_word);
-                    }
-                    _ => unreachable!("call() should reject mismatching responses"),
-                })
-            })
+            .await?
+        {
+            Ok(Response::WriteSingleRegister(rsp_addr, rsp_word)) => verify_response_data(
+                addr == rsp_addr && word == rsp_word,
+                "response does not echo the written register",
+            ),
+            Ok(_) => unreachable!("call() should reject mismatching responses"),
+            Err(exception) => Ok(Err(exception)),
+        }
     }
 
     async fn write_multiple_registers<'a>(
@@ -280,18 +289,18 @@ impl Writer for Context {
         data: &[Word],
     ) -> Result<()> {
         let cnt = data.len();
-        self.client
+        match self
+            .client
             .call(Request::WriteMultipleRegisters(addr, Cow::Borrowed(data)))
-            .await
-            .map(|result| {
-                result.map(|response| match response {
-                    Response::WriteMultipleRegisters(rsp_addr, rsp_cnt) => {
-                        debug_assert_eq!(addr, rsp_addr);
-                        debug_assert_eq!(cnt, rsp_cnt.into());
-                    }
-                    _ => unreachable!("call() should reject mismatching responses"),
-                })
-            })
+            .await?
+        {
+            Ok(Response::WriteMultipleRegisters(rsp_addr, rsp_cnt)) => verify_response_data(
+                addr == rsp_addr && cnt == usize::from(rsp_cnt),
+                "response does not echo the written registers",
+            ),
+            Ok(_) => unreachable!("call() should reject mismatching responses"),
+            Err(exception) => Ok(Err(exception)),
+        }
     }
 
     async fn masked_write_register<'a>(
@@ -300,19 +309,20 @@ impl Writer for Context {
         and_mask: Word,
         or_mask: Word,
     ) -> Result<()> {
-        self.client
+        match self
+            .client
             .call(Request::MaskWriteRegister(addr, and_mask, or_mask))
-            .await
-            .map(|result| {
-                result.map(|response| match response {
-                    Response::MaskWriteRegister(rsp_addr, rsp_and_mask, rsp_or_mask) => {
-                        debug_assert_eq!(addr, rsp_addr);
-                        debug_assert_eq!(and_mask, rsp_and_mask);
-                        debug_assert_eq!(or_mask, rsp_or_mask);
-                    }
-                    _ => unreachable!("call() should reject mismatching responses"),
-                })
-            })
+            .await?
+        {
+            Ok(Response::MaskWriteRegister(rsp_addr, rsp_and_mask, rsp_or_mask)) => {
+                verify_response_data(
+                    addr == rsp_addr && and_mask == rsp_and_mask && or_mask == rsp_or_mask,
+                    "response does not echo the written masks",
+                )
+            }
+            Ok(_) => unreachable!("call() should reject mismatching responses"),
+            Err(exception) => Ok(Err(exception)),
+        }
     }
 }
 
